@@ -221,6 +221,23 @@ theorem date_fields_in_range (z : Int) :
     1 ≤ (Json.civil z).2.1 ∧ (Json.civil z).2.1 ≤ 12 ∧ 1 ≤ (Json.civil z).2.2 ∧ (Json.civil z).2.2 ≤ 31 :=
   Json.civil_in_range z
 
+/-- **the numbers in the timestamp text determine the instant**, for every `ns : Int`: `fmtTs` is a rendering of
+    (year, month, day, hour, minute, second, nanosecond) and that tuple is injective in `ns` -/
+theorem timestamp_fields_determine_instant (a b : Int) (h : Json.tsFields a = Json.tsFields b) : a = b :=
+  Json.tsFields_injective a b h
+
+theorem timestamp_text_is_fields (ns : Int) : Json.fmtTs ns = Json.renderFields (Json.tsFields ns) :=
+  Json.fmtTs_eq_render ns
+
+/-- every fixed-width digit field reads back as the number written, whenever the number fits the width -/
+theorem digit_field_reads_back (w n : Nat) (h : n < 10 ^ w) :
+    Json.digitsVal (Json.pad w n) = n ∧ (Json.pad w n).length = w :=
+  ⟨Json.digitsVal_pad w n h, Json.pad_length w n⟩
+
+/-! non-vacuity -/
+example : Json.tsFields 1000000000123456789 = ((2001, 9, 9), 1, 46, 40, 123456789) ∧
+    Json.digitsVal (Json.pad 4 2001) = 2001 := by decide +kernel
+
 /-! non-vacuity: 2000-02-29 and 1969-12-31 -/
 example : Json.civil 11016 = (2000, 2, 29) ∧ Json.daysFromCivil 2000 2 29 = 11016 ∧ Json.civil (-1) = (1969, 12, 31) := by
   decide +kernel
